@@ -104,9 +104,13 @@ where
     FrameFn: FnOnce(&str, u32) -> T2 + Sync,
     T2: Future<Output = Result<FrameIO, Error>>,
 {
+    // the client is waited for without holding the context lock: the management API reads live contexts
+    let mut socket = ctx.write().await.take_client_stream();
+    let request = HttpRequest::read_from(&mut socket).await;
     let mut ctx_lock = ctx.write().await;
+    ctx_lock.set_client_stream(socket);
     let socket = ctx_lock.borrow_client_stream().unwrap();
-    let request = HttpRequest::read_from(socket).await?;
+    let request = request?;
     tracing::trace!("request={:?}", request);
     if request.method.eq_ignore_ascii_case("CONNECT") {
         let protocol = request.header("Proxy-Protocol", "tcp");
